@@ -43,7 +43,7 @@ WORKERS = {"quick": 8, "thorough": 16}
 BUDGET = {"quick": 100, "thorough": 1500}
 ENV = {"OMP_NUM_THREADS": "4"}
 GROUPS = {"quick": [dict(name="shim", flavour="shim", workers=2)], "thorough": [dict(name="shim", flavour="shim", workers=4)]}
-FLOORS = {"quick": {"threads.bitwise": 250, "context.single-frame": 100, "context.permutation": 25, "junk.bitwise": 80,
+FLOORS = {"quick": {"threads.bitwise": 500, "context.single-frame": 200, "context.permutation": 50, "junk.bitwise": 150,
                     "tsan.no-race": 12, "shim.bitwise": 40}}
 ASSUMPTIONS = ["OPENBLAS_NUM_THREADS=1 so that only mdtraj's own OpenMP team size varies",
                "8 ulp tolerance only for frame-context comparisons of functions whose path contains numpy reductions"]
@@ -189,7 +189,19 @@ def structure(case, need_protein, need_cell):
         ext = float(np.abs(t.xyz).max()) * 2 + 2.0
         l, a = common.random_cell(rng, case.get("cellkind"), lo=ext, hi=ext * 1.3)
         t.unitcell_lengths = np.tile(l, (nf, 1)).astype(np.float32) + rng.uniform(0, 0.2, (nf, 3)).astype(np.float32)
-        t.unitcell_angles = np.tile(a, (nf, 1)).astype(np.float32)
+        ang = np.tile(a, (nf, 1)).astype(np.float32)
+        if nf > 1 and rng.random() < 0.5:
+            # the cell CLASS changes along the trajectory (e.g. two runs joined): some frames orthorhombic, some skewed —
+            # a per-frame result must not depend on what kind of cell another frame has
+            skew = np.array([75.0, 100.0, 110.0], np.float32) if np.all(a == 90.0) else a.astype(np.float32)
+            for f in range(nf):
+                ang[f] = np.float32(90.0) if (f == 0) == (rng.random() < 0.8) else skew
+        t.unitcell_angles = ang
+        # scatter the atoms over neighbouring periodic images (per-atom lattice shifts of that frame's cell) so that the
+        # minimum-image machinery really has work to do in the periodic functions
+        B = t.unitcell_vectors.astype(np.float64)
+        shifts = rng.integers(-1, 2, (nf, t.n_atoms, 3)).astype(np.float64)
+        t.xyz = (t.xyz.astype(np.float64) + np.einsum("fak,fkj->faj", shifts, B)).astype(np.float32)
     args = dict(pairs=_pairs(t, rng), triplets=rng.integers(0, t.n_atoms, (8, 3)), quartets=rng.integers(0, t.n_atoms, (8, 4)),
                 subset=np.sort(rng.choice(t.n_atoms, size=min(t.n_atoms, 24), replace=False)))
     args["triplets"] = args["triplets"][[len(set(r)) == 3 for r in args["triplets"]]]
@@ -233,7 +245,7 @@ def guarded(t, junk, rng):
 # ------------------------------------------------------------------------------------------------ cases
 def gen_cases(tier, seed):
     i = 0
-    reps = 1 if tier == "quick" else 6
+    reps = 3 if tier == "quick" else 8
     for r in range(reps):
         for k, name in enumerate(FUNCTION_NAMES):
             for variant in range(2 if tier == "quick" else 3):
